@@ -1078,9 +1078,13 @@ bool evaluate_impl(const void *context, const GraphView &graph,
   // next evaluate at the same time continues from there WITHOUT redoing the
   // per-cycle setup (next_scheduled accumulation / push-source pass). A
   // completed cycle resets the cursor to 0. (A cursor of 0 or the initial
-  // invalid sentinel means "fresh".)
+  // invalid sentinel means "fresh".) An evaluation that FAILED also leaves the
+  // cursor on the failing node (failed_node() reads it), but it is not a pause:
+  // when the exception was captured (try_except_, map_ error capture) the next
+  // evaluation must be a fresh cycle from node 0, not a resume from the cursor.
   const bool resuming =
-      state.evaluation_cursor != 0 && state.evaluation_cursor != invalid_cursor;
+      !state.evaluation_failed && state.evaluation_cursor != 0 &&
+      state.evaluation_cursor != invalid_cursor;
 
   state.evaluation_time = evaluation_time;
   state.evaluation_failed = false;
